@@ -3,6 +3,7 @@
   Theorems about `Nice.Timer` (model of stun/usages/timer.c).  Core Lean only.
 -/
 import Nice.Model.Timer
+import Nice.Props.C19Tick
 namespace Nice.Props.C19
 open Nice.Timer
 
